@@ -646,6 +646,8 @@ func WindowWhen[T, B any](boundary Observable[B]) func(Observable[T]) Observable
 		return NewObservableWithContext(func(subscriberCtx context.Context, destination Observer[Observable[T]]) Teardown {
 			var window Subject[T]
 
+			terminated := false
+
 			mu := xsync.MutexWithSpinlock{}
 
 			flush := func(ctx context.Context, skipNew bool) {
@@ -653,12 +655,21 @@ func WindowWhen[T, B any](boundary Observable[B]) func(Observable[T]) Observable
 				verifPoint("operator_transformations:WindowWhen:lock#0", nil)
 				mu.Lock()
 
+				if terminated {
+					// a terminal notification already closed the last window: a boundary racing
+					// with it must not open a window that nobody would ever complete
+					mu.Unlock()
+					return
+				}
+
 				tmp := window
 
 				var newSubject Subject[T]
 				if !skipNew {
 					newSubject = NewUnicastSubject[T](UnicastSubjectUnlimitedBufferSize)
 					window = newSubject
+				} else {
+					terminated = true
 				}
 
 				mu.Unlock()
